@@ -49,6 +49,7 @@ class Harness(cm.BaseB):
                 yield {"k": "samename", "dev": chunk["dev"], "first": first}
             for R, C in ((1, 120), (2, 101), (8, 100)):
                 yield {"k": "longid", "dev": chunk["dev"], "R": R, "C": C}
+            yield {"k": "rdest", "dev": chunk["dev"]}
 
     def one(self, case):
         return getattr(self, "one_" + case["k"])(case)
@@ -220,6 +221,41 @@ class Harness(cm.BaseB):
                     if p["position"] != g.position(dev, w):
                         V.append(("C08/emitted-position", f"{case['dev']}.{op} on the {kind} 'reservoir' (4 x 3), used on the same worklist as a {kinds[1] if kind == kinds[0] else kinds[0]} of that name and shape: {w} emitted as {p['position']}, expected {g.position(dev, w)}"))
         return "samename", repr(case), V[:6]
+
+    def one_rdest(self, case):
+        """distribute: destination collections of every orientation name the same wells (range + exclusions of the R record)"""
+        import numpy as np
+
+        dev = "evo" if case["dev"] == "EvoWorklist" else "fluent"
+        V = []
+        g = Geo("P", "plate", 4, 6)
+        full = np.array([[well_id(r, c) for c in range(6)] for r in range(4)])
+        views = {
+            "block": full[1:3, 1:4], "rows reversed": full[::-1, 1:3], "columns reversed": full[0:2, ::-1], "both reversed": full[::-1, ::-1][0:3, 0:2],
+            "row picks": full[[3, 0, 2], 2:4], "column picks": full[1:3, [4, 1]], "transposed": full[0:2, 0:3].T, "strided": full[::2, ::3],
+            "nested list": [["C02", "A02"], ["B05", "D01"]], "flat reversed": list(full[:, 2][::-1]), "fortran": np.asfortranarray(full[::-1, 0:2]),
+        }
+        for name, dest in views.items():
+            tr = rt.Trough("T", 4, 1, min_volume=0, max_volume=1e6, initial_volumes=[1e5])
+            pl = rt.Labware("P", 4, 6, min_volume=0, max_volume=1e4)
+            wl = getattr(rt, case["dev"])(max_volume=950)
+            ids = [str(w) for w in np.asarray(dest).flatten()]
+            try:
+                wl.distribute(tr, 0, pl, dest, volume=10)
+            except Exception as e:
+                V.append(("C08/position-raised", f"{case['dev']}.distribute to a {name} selection {ids} raised {type(e).__name__}: {e}"))
+                continue
+            p = gwl.parse([r for r in wl if r[0] == "R"][-1])
+            got = {g.decode(dev, q) for q in range(p["dst_start"], p["dst_end"] + 1) if q not in p["exclude"]}
+            want = {g.real(w) for w in ids}
+            if got != want or p["dst_start"] > p["dst_end"] or p["exclude"] != sorted(p["exclude"]):
+                V.append(("C08/emitted-position", f"{case['dev']}.distribute to a {name} selection {ids}: record {wl[-1]!r} addresses {sorted(got)}, named {sorted(want)}"))
+            exp = np.zeros((4, 6))
+            for w in ids:
+                exp[g.real(w)] += 10
+            if (pl.volumes != exp).any():
+                V.append(("C08/emitted-position", f"{case['dev']}.distribute to a {name} selection {ids} tracked other wells than those named"))
+        return "rdest", repr(case), V
 
     def one_longid(self, case):
         """well IDs of different length in one call (columns beyond 99): several sources into one destination and back"""
